@@ -38,6 +38,7 @@ type Contract struct {
 	LoopInv       map[int][]*CExpr
 	LoopDec       map[int]*CExpr
 	LoopStep      map[int][]*CExpr // relation between the head of an iteration and its end (uses snapshots)
+	LoopEntry     map[int][]*CExpr // "loop N entry E": E holds when the loop is reached (checked there, assumed nowhere)
 	LoopSnap      map[int][]*Snap  // ghost locals holding the value of an expression at the loop head
 	Modifies      []*CExpr         // pointer.field expressions
 	HasModifies   bool
@@ -206,7 +207,7 @@ func readSexp(s string, i int) (string, int) {
 	return s[i:], len(s)
 }
 
-var clauseRe = regexp.MustCompile(`^(requires|ensures|invariant|decreases|step)(\[[A-Z0-9, ]+\])?\s+(.*)$`)
+var clauseRe = regexp.MustCompile(`^(requires|ensures|invariant|decreases|step|entry)(\[[A-Z0-9, ]+\])?\s+(.*)$`)
 
 func parseContractFile(path string, extra ...string) (*ContractFile, error) {
 	cf := &ContractFile{ByName: map[string]*Contract{}, Path: path, Scan: map[string]int{}, Lists: map[string][]string{}, Groups: map[string]*Contract{}}
@@ -462,6 +463,14 @@ func parseContractFile(path string, extra ...string) (*ContractFile, error) {
 					return nil, fmt.Errorf("line %d: decreases without loop ordinal", ln)
 				}
 				cur.LoopDec[loopN] = ce
+			case "entry":
+				if loopN <= 0 {
+					return nil, fmt.Errorf("line %d: entry needs the ordinal of one loop", ln)
+				}
+				if cur.LoopEntry == nil {
+					cur.LoopEntry = map[int][]*CExpr{}
+				}
+				cur.LoopEntry[loopN] = append(cur.LoopEntry[loopN], ce)
 			case "step":
 				if loopN <= 0 {
 					return nil, fmt.Errorf("line %d: step needs the ordinal of one loop", ln)
@@ -2013,6 +2022,12 @@ func mergeContract(dst, grp *Contract) {
 	}
 	for k, v := range grp.LoopInv {
 		dst.LoopInv[k] = append(dst.LoopInv[k], v...)
+	}
+	for k, v := range grp.LoopEntry {
+		if dst.LoopEntry == nil {
+			dst.LoopEntry = map[int][]*CExpr{}
+		}
+		dst.LoopEntry[k] = append(dst.LoopEntry[k], v...)
 	}
 	for k, v := range grp.LoopStep {
 		if dst.LoopStep == nil {
